@@ -1724,7 +1724,105 @@ func byteSliceConst(w *World, v ssa.Value, d int) (string, bool) {
 
 // stringTableElems: v is an element read, in a loop that covers every index, of a package-level
 // array / slice variable initialised once with constant strings (a table); returns the strings.
+// localStringTable: v is the element, selected by a loop counter that covers the whole array, of a local
+// array of string constants ([...]string{"a", "b"} ranged over in the same function).
+func localStringTable(v ssa.Value) ([]string, bool) {
+	var al *ssa.Alloc
+	var index ssa.Value
+	switch x := v.(type) {
+	case *ssa.Index:
+		if u, ok := x.X.(*ssa.UnOp); ok && u.Op == token.MUL {
+			al, _ = u.X.(*ssa.Alloc)
+			index = x.Index
+		}
+	case *ssa.UnOp:
+		if ia, ok := x.X.(*ssa.IndexAddr); ok && x.Op == token.MUL {
+			al, _ = ia.X.(*ssa.Alloc)
+			index = ia.Index
+		}
+	}
+	if al == nil {
+		return nil, false
+	}
+	n, ok := arrayLen(derefType(al.Type()))
+	if !ok {
+		return nil, false
+	}
+	vals := map[int64]string{}
+	for _, ref := range referrers(al) {
+		switch r := ref.(type) {
+		case *ssa.IndexAddr:
+			idx, isC := constInt(r.Index)
+			stored := false
+			for _, r2 := range referrers(r) {
+				switch y := r2.(type) {
+				case *ssa.Store:
+					if y.Addr != ssa.Value(r) {
+						return nil, false
+					}
+					sv, isS := constString(y.Val)
+					if !isC || !isS {
+						return nil, false
+					}
+					vals[idx] = sv
+					stored = true
+				case *ssa.UnOp:
+				default:
+					return nil, false
+				}
+			}
+			_ = stored
+		case *ssa.UnOp:
+			// a copy of the whole array (range over the array value)
+		default:
+			return nil, false
+		}
+	}
+	if int64(len(vals)) != n {
+		return nil, false
+	}
+	var ph *ssa.Phi
+	if p, ok := index.(*ssa.Phi); ok {
+		ph = p
+	} else if b := asBinOp(index, token.ADD); b != nil {
+		ph, _ = b.X.(*ssa.Phi)
+	}
+	if ph == nil {
+		return nil, false
+	}
+	covers := false
+	for _, e := range ph.Edges {
+		if b := asBinOp(e, token.ADD); b != nil && b.X == ssa.Value(ph) {
+			for _, ref := range referrers(b) {
+				if c, ok := ref.(*ssa.BinOp); ok && c.Op == token.LSS && c.X == ssa.Value(b) {
+					if k, isC := constInt(c.Y); isC && k == n {
+						covers = true
+					}
+				}
+			}
+		}
+	}
+	for _, ref := range referrers(ph) {
+		if c, ok := ref.(*ssa.BinOp); ok && c.Op == token.LSS && c.X == ssa.Value(ph) {
+			if k, isC := constInt(c.Y); isC && k == n {
+				covers = true
+			}
+		}
+	}
+	if !covers {
+		return nil, false
+	}
+	out := make([]string, n)
+	for i, s := range vals {
+		out[i] = s
+	}
+	return out, true
+}
+
 func stringTableElems(w *World, v ssa.Value) ([]string, bool) {
+	if tab, ok := localStringTable(v); ok {
+		return tab, true
+	}
 	var g *ssa.Global
 	var sliceOf ssa.Value
 	var index ssa.Value
@@ -2121,4 +2219,51 @@ func canonPath(v ssa.Value) string {
 	pathResolveStructs = true
 	defer func() { pathResolveStructs = old }()
 	return pathOf(v)
+}
+
+
+// structTableRows: the rows of local tables written as an array / slice literal of structs
+// ([...]struct{...}{{a, b}, {c, d}}): for each element, the value stored into each field (by field index).
+// The compiler builds a row either in place (&t[i].f = v) or in a temporary literal that is copied in.
+func structTableRows(fn *ssa.Function) []map[int]ssa.Value {
+	var out []map[int]ssa.Value
+	eachInstr(fn, func(in ssa.Instruction) {
+		ia, ok := in.(*ssa.IndexAddr)
+		if !ok {
+			return
+		}
+		if _, isAl := ia.X.(*ssa.Alloc); !isAl {
+			return
+		}
+		if _, isStruct := derefType(ia.Type()).Underlying().(*types.Struct); !isStruct {
+			return
+		}
+		var refs []ssa.Instruction
+		refs = append(refs, referrers(ia)...)
+		for _, rf := range referrers(ia) {
+			if st, ok := rf.(*ssa.Store); ok && st.Addr == ssa.Value(ia) {
+				if ld, isLd := st.Val.(*ssa.UnOp); isLd && ld.Op == token.MUL {
+					if tmp, isAl := ld.X.(*ssa.Alloc); isAl {
+						refs = append(refs, referrers(tmp)...)
+					}
+				}
+			}
+		}
+		row := map[int]ssa.Value{}
+		for _, rf := range refs {
+			fa, ok := rf.(*ssa.FieldAddr)
+			if !ok {
+				continue
+			}
+			for _, r2 := range referrers(fa) {
+				if st, ok := r2.(*ssa.Store); ok && st.Addr == ssa.Value(fa) {
+					row[fa.Field] = st.Val
+				}
+			}
+		}
+		if len(row) > 0 {
+			out = append(out, row)
+		}
+	})
+	return out
 }
